@@ -88,6 +88,15 @@ AcceptRet(i) ==
     /\ srv' = [srv EXCEPT ![i] = "consumed"] /\ fs' = [fs EXCEPT ![i] = FALSE]
     /\ UNCHANGED <<names, nextName, conn, nsent>>
 
+\* accept() when the client connected and went away without sending anything: the first receive
+\* fails; the server is consumed all the same and nothing may remain (no path, no directory, no
+\* listening descriptor, and not the accepted connection either)
+AcceptFail(i) ==
+    /\ Can /\ srv[i] = "open" /\ conn[i] = "closed" /\ q[i] = <<>> /\ nsent[i] = 0
+    /\ L([op |-> "accept.fail", i |-> i])
+    /\ srv' = [srv EXCEPT ![i] = "consumed"] /\ fs' = [fs EXCEPT ![i] = FALSE]
+    /\ UNCHANGED <<names, nextName, conn, q, nsent, got, rx>>
+
 Recv(i) ==
     /\ Can /\ rx[i]
     /\ IF q[i] # <<>>
@@ -108,7 +117,8 @@ ServerDrop(i) ==
     /\ UNCHANGED <<names, nextName, conn, nsent, got, rx>>
 
 Next == \E i \in Servers :
-          \/ ServerNew(i) \/ Connect(i) \/ ClientExit(i) \/ AcceptCall(i) \/ AcceptRet(i) \/ Recv(i) \/ ServerDrop(i)
+          \/ ServerNew(i) \/ Connect(i) \/ ClientExit(i) \/ AcceptCall(i) \/ AcceptRet(i) \/ AcceptFail(i) \/ Recv(i)
+          \/ ServerDrop(i)
           \/ \E big \in BOOLEAN, att \in BOOLEAN : ClientSend(i, big, att)
 
 Spec == Init /\ [][Next]_vars
